@@ -226,8 +226,8 @@ func c19Guard(f func() error) error {
 			panic(r.pan)
 		}
 		return r.err
-	case <-time.After(4 * time.Second):
-		fmt.Fprintln(os.Stderr, "c19: the output function did not return within 4s (endless loop?)")
+	case <-time.After(2500 * time.Millisecond):
+		fmt.Fprintln(os.Stderr, "c19: the output function did not return within 2.5s (endless loop?)")
 		os.Exit(3)
 		return nil
 	}
